@@ -63,7 +63,7 @@ class TlcResult:
         m = re.findall(r"(\d+) states generated, (\d+) distinct states found", out)
         self.generated, self.distinct = (int(m[-1][0]), int(m[-1][1])) if m else (0, 0)
         self.violated = re.findall(r"Error: Invariant (\S+) is violated", out)
-        self.temporal_violated = "Temporal properties were violated" in out
+        self.temporal_violated = bool(re.search(r"Temporal propert(y|ies) .*violated", out))
         self.finished = "Model checking completed. No error has been found." in out
         self.error_lines = [l for l in out.splitlines() if l.startswith("Error:")]
 
